@@ -6,6 +6,7 @@ import (
 	"encoding/gob"
 	"fmt"
 	"io"
+	"math"
 	"sync"
 	"time"
 )
@@ -155,6 +156,11 @@ func LoadFromCompiled(compiled *CompiledTemplate, env *Environment, engine *Engi
 
 // writeString writes a string to a buffer with length prefix
 func writeString(w io.Writer, s string) error {
+	// The length prefix is a uint32: refuse what it cannot represent
+	if uint64(len(s)) > math.MaxUint32 {
+		return fmt.Errorf("string of %d bytes is too long to serialize", len(s))
+	}
+
 	// Write the string length as uint32
 	if err := binary.Write(w, binary.LittleEndian, uint32(len(s))); err != nil {
 		return err
@@ -166,11 +172,16 @@ func writeString(w io.Writer, s string) error {
 }
 
 // readString reads a length-prefixed string from a reader
-func readString(r io.Reader) (string, error) {
+func readString(r *bytes.Reader) (string, error) {
 	// Read string length
 	var length uint32
 	if err := binary.Read(r, binary.LittleEndian, &length); err != nil {
 		return "", err
+	}
+
+	// The length prefix must fit in what is left of the input
+	if int64(length) > int64(r.Len()) {
+		return "", io.ErrUnexpectedEOF
 	}
 
 	// Read string data
@@ -214,6 +225,10 @@ func SerializeCompiledTemplate(compiled *CompiledTemplate) ([]byte, error) {
 	}
 
 	// Write AST data length followed by data
+	if uint64(len(compiled.AST)) > math.MaxUint32 {
+		return nil, fmt.Errorf("failed to serialize AST length: %d bytes do not fit the length prefix", len(compiled.AST))
+	}
+
 	if err := binary.Write(buf, binary.LittleEndian, uint32(len(compiled.AST))); err != nil {
 		return nil, fmt.Errorf("failed to serialize AST length: %w", err)
 	}
@@ -287,6 +302,10 @@ func deserializeBinaryFormat(data []byte) (*CompiledTemplate, error) {
 	var astLength uint32
 	if err := binary.Read(r, binary.LittleEndian, &astLength); err != nil {
 		return nil, fmt.Errorf("failed to read AST length: %w", err)
+	}
+
+	if int64(astLength) > int64(r.Len()) {
+		return nil, fmt.Errorf("failed to read AST data: %w", io.ErrUnexpectedEOF)
 	}
 
 	compiled.AST = make([]byte, astLength)
